@@ -131,6 +131,11 @@ def gen_matrix(rng, opts=None):
                 arbid = rng.randrange(1, 0x7FF)
             if arbid not in ids:
                 break
+        twins = [f for f in frames if f["id"] <= 0x7FF and not any(g["id"] == f["id"] and g["ext"] != f["ext"] for g in frames)]
+        if opts.get("twin_ids", False) and twins and rng.random() < 0.2:
+            # the same identifier number in the other format is another identifier
+            t = rng.choice(twins)
+            arbid, ext = t["id"], not t["ext"]
         ids.add(arbid)
         frames.append(gen_frame(rng, "Frame%d" % k, arbid, ext, opts))
     ecus = sorted({e for f in frames for e in f["transmitters"]} | {e for f in frames for s in f["signals"] for e in s["receivers"]})
